@@ -349,6 +349,25 @@ pub fn eval(ctx: &Ctx, case: &Case) {
                             return;
                         }
                     }
+                    f if f.starts_with("C3-bytes-changed/") => {
+                        // several bytes of C3 changed so that the differences cancel under a sloppy accumulation: equal XOR
+                        // differences (xor-fold), differences adding up to 0 mod 256 (sum-fold), neighbouring and distant positions
+                        let spec = &f["C3-bytes-changed/".len()..];
+                        let edits: Vec<(usize, u8)> = match spec {
+                            "80@0,80@1" => vec![(0, 0x80), (1, 0x80)],
+                            "80@0,80@31" => vec![(0, 0x80), (31, 0x80)],
+                            "01@3,ff@17" => vec![(3, 0x01), (17, 0xff)],
+                            "40@5,c0@6" => vec![(5, 0x40), (6, 0xc0)],
+                            "40@0,40@8,40@16,40@24" => vec![(0, 0x40), (8, 0x40), (16, 0x40), (24, 0x40)],
+                            "55@10,55@20" => vec![(10, 0x55), (20, 0x55)],
+                            "ff@all" => (0..32).map(|i| (i, 0xffu8)).collect(),
+                            "01@all" => (0..32).map(|i| (i, 0x01u8)).collect(),
+                            _ => panic!("unknown C3 edit"),
+                        };
+                        for (i, x) in edits {
+                            ct[65 + i] ^= x;
+                        }
+                    }
                     "C1-x>=p" => {
                         for b in &mut ct[1..33] {
                             *b = 0xff;
@@ -402,7 +421,7 @@ pub const ANNEX_R: &str = "0000AAC0541779C8FC45E3E2CB25C12B5D2576B2129AE8BB5EE2C
 pub fn run(ctx: &Arc<Ctx>) {
     refmodels::selftest::run(&["sm3", "sm9"]).unwrap_or_else(|e| ctx.machinery_error(format!("reference self-test failed: {}", e)));
     let n = sm9::params().n.clone();
-    ctx.set_rule("encryption: every message length 1..=255 with one (master, identity, r); masters {Annex ke, N-2, seeded} x identities {Bob,'',seeded, 12 normalisation-sensitive variants of one name} x nonces {1,2,N-2,Annex r,2^255+1,seeded} at length 20; the GM/T 0044.5 example, key objects holding Ppub-e / de in Jacobian representations with structured Z (Z in Fp, purely imaginary, generic), all-zero and all-ones messages, a sender object holding only the master public key, nonces searched so that K1 starts or ends with a zero byte (must still decrypt), nonces crafted so that K1 is all zero (step A6 retry): ciphertext = reference C1||C3||C2 byte for byte for the accepted r (MAC = SM3(C2||K2)), library and reference decryptors recover M. Conforming ciphertexts whose C1 has a boundary coordinate (x = p-1, smallest x, y = R^-1) must decrypt. Decryption of reference-made ciphertexts (lengths {1,20}, thorough +{32,255}): untouched must decrypt; every single-bit flip, every truncation, extension, over-long bodies, other identity, the fields in another order (C1||C2||C3, C3||C1||C2), the MAC with its inputs swapped, foreign tags, C1 off-curve with the original body and with the body recomputed for the foreign point (invalid-curve attack, using the library's own pairing), (0,0) with the original body and with bodies forged for a constant pairing value, unreduced coordinates (all-ones and the v+p aliases of the same point over 12 further nonces), another valid point: all must be refused with an error, never a plaintext, never a panic.");
+    ctx.set_rule("encryption: every message length 1..=255 with one (master, identity, r); masters {Annex ke, N-2, seeded} x identities {Bob,'',seeded, 12 normalisation-sensitive variants of one name} x nonces {1,2,N-2,Annex r,2^255+1,seeded} at length 20; the GM/T 0044.5 example, key objects holding Ppub-e / de in Jacobian representations with structured Z (Z in Fp, purely imaginary, generic), all-zero and all-ones messages, a sender object holding only the master public key, nonces searched so that K1 starts or ends with a zero byte (must still decrypt), nonces crafted so that K1 is all zero (step A6 retry): ciphertext = reference C1||C3||C2 byte for byte for the accepted r (MAC = SM3(C2||K2)), library and reference decryptors recover M. Conforming ciphertexts whose C1 has a boundary coordinate (x = p-1, smallest x, y = R^-1) must decrypt. Decryption of reference-made ciphertexts (lengths {1,20}, thorough +{32,255}): untouched must decrypt; every single-bit flip, every truncation, extension, over-long bodies, other identity, the fields in another order (C1||C2||C3, C3||C1||C2), the MAC with its inputs swapped, foreign tags, C1 off-curve with the original body and with the body recomputed for the foreign point (invalid-curve attack, using the library's own pairing), (0,0) with the original body and with bodies forged for a constant pairing value, unreduced coordinates (all-ones and the v+p aliases of the same point over 12 further nonces), another valid point: all must be refused with an error, never a plaintext, never a panic. Tampering also covers C3 with several bytes changed so that the differences cancel (equal XOR differences, differences summing to 0 mod 256, every byte) and 7 shapes of non-point C1 with the body forged for a publicly known pairing value.");
     let mut g = SplitMix::new(ctx.seed, "c10");
     let mut cases: Vec<Case> = Vec::new();
     cases.push(Case::Enc { ke: ANNEX_KE.into(), id: "Bob".into(), msg_len: 20, r: ANNEX_R.into(), tag: "annex-example".into() });
@@ -529,6 +548,9 @@ pub fn run(ctx: &Arc<Ctx>) {
         let r = hexbig(&rs[(bi + 3) % rs.len()].1);
         let total = 97 + l;
         let mut tampers: Vec<String> = vec!["none", "extended", "mlen-256", "mlen-300", "other-identity", "layout-C1C2C3", "layout-C3C1C2", "C3=SM3(K2||C2)", "C1-off-curve(y+1)/orig-body", "C1-off-curve(y+1)/invalid-curve-completed", "C1-off-curve(random)/invalid-curve-completed", "C1=(0,0)", "C1=(0,0)/body-for-w=1", "C1=(0,0)/body-for-w=0", "C1-x>=p", "C1-x+p-alias", "C1-y+p-alias", "C1-other-valid-point", "tag=02", "tag=00"].iter().map(|s| s.to_string()).collect();
+        for spec in ["80@0,80@1", "80@0,80@31", "01@3,ff@17", "40@5,c0@6", "40@0,40@8,40@16,40@24", "55@10,55@20", "ff@all", "01@all"] {
+            tampers.push(format!("C3-bytes-changed/{}", spec));
+        }
         for shape in ["x=y=2^256-1", "x-genuine,y=2^256-1", "x=2^256-1,y-genuine", "(0,0)", "(1,1)", "x=p,y=p", "(x,y+1)"] {
             for w in ["w=1", "w=g", "w=0"] {
                 for kd in ["", "/kdf-over-reduced-C1", "/kdf-over-(1,1)", "/kdf-over-zeros"] {
